@@ -74,7 +74,7 @@ func gen(t *rapid.T) Program {
 	for g := 0; g < ng; g++ {
 		l := fmt.Sprintf("g%d", g)
 		r := Routine{Via: rapid.SampledFrom([]string{"direct", "direct", "conn"}).Draw(t, l+"Via")}
-		reads := []string{"list", "signers", "signers", "signshared", "extension", "forward"}
+		reads := []string{"list", "signers", "signers", "signshared", "signviashared", "extension", "forward"}
 		n := rapid.IntRange(1, 8).Draw(t, l+"N")
 		// life cycles of up to two own keys, interleaved with read-type operations
 		var life [][]string
@@ -314,10 +314,15 @@ func runOnce(prog Program, rep int) (err error, readPurge bool) {
 						} else if exact && expectOK {
 							viol.set(vh.Errf("%s failed although the key is present: %v", where, e))
 						}
-					case "signviahard":
-						// sign through the Signer object that Signers() hands out for the in-memory hardware certificate
+					case "signviahard", "signviashared":
+						// sign through the Signer object that Signers() hands out (for the in-memory hardware
+						// certificate, or for the shared key of the underlying agent)
 						expectOK := finals[g].keyPresent[op.Key] && finals[g].hardPresent[op.Key]
 						want := certFor(own, "hard").Marshal()
+						verifyKey := vh.SSHPub(own)
+						if op.Kind == "signviashared" {
+							expectOK, want, verifyKey = true, vh.SSHPub(sharedKey).Marshal(), vh.SSHPub(sharedKey)
+						}
 						var ss []ssh.Signer
 						ss, e = ag.Signers()
 						if e != nil {
@@ -340,11 +345,11 @@ func runOnce(prog Program, rep int) (err error, readPurge bool) {
 						}
 						sig, serr := hs.Sign(rand.Reader, tag)
 						if serr == nil {
-							if verr := vh.SSHPub(own).Verify(tag, sig); verr != nil {
+							if verr := verifyKey.Verify(tag, sig); verr != nil {
 								viol.set(vh.Errf("%s: the signature returned does not verify over the caller's own data (reply of another request?): %v", where, verr))
 							}
 						} else if exact && expectOK {
-							viol.set(vh.Errf("%s: signing through the hardware signer failed although key and certificate are present: %v", where, serr))
+							viol.set(vh.Errf("%s: signing through the signer failed although key and certificate are present: %v", where, serr))
 						}
 					case "extension":
 						var rep []byte
